@@ -158,9 +158,75 @@ var cidAlphaNames = []string{"absent", "0", "1", "2", "3", "100", "4294967295"}
 // the sub-alphabet used where the full one is too expensive
 var cidSub = []int{0, 1, 2, 3, 6} // absent, 0, 1, 2, 2^32-1
 
-var tuAlpha = []string{"", "", "A", "B", "C", "AB", "\ud7ff", "\uffff", "\U00010000", "\U0010ffff"}
-var tuAlphaNames = []string{"absent", "empty", "A", "B", "C", "AB", "U+D7FF", "U+FFFF", "U+10000", "U+10FFFF"}
+// Indices 0..9 are the base alphabet (every window, every chain
+// configuration).  Indices 10.. are the multi-rune family: together with "AB"
+// they differ from one another in the prefix only, in the last rune only, in
+// both, in the number of prefix runes and in the UTF-8 length of the prefix, so
+// that every successor / non-successor relation between the texts of adjacent
+// codes occurs (textRelations checks this at start-up).  The enlarged alphabet
+// (all 17 values) is used on the windows and chain configurations named in
+// runTU.  New values are only ever appended: replay files store indices.
+var tuAlpha = []string{"", "", "A", "B", "C", "AB", "\ud7ff", "\uffff", "\U00010000", "\U0010ffff",
+	"AC", "XB", "XC", "ABC", "\u00e9B", "eB", "\u00e9C"}
+var tuAlphaNames = []string{"absent", "empty", "A", "B", "C", "AB", "U+D7FF", "U+FFFF", "U+10000", "U+10FFFF",
+	"AC", "XB", "XC", "ABC", "U+00E9 B", "eB", "U+00E9 C"}
+
+const tuBaseLen = 10 // the base alphabet is tuAlpha[:tuBaseLen]
+
 var tuSub = []int{0, 1, 2, 3, 5, 7, 8} // absent, empty, A, B, AB, U+FFFF, U+10000
+
+// the sub-alphabets of the enlarged alphabet whose complete products go
+// through a file (in addition to the products over tuSub / the base alphabet)
+var tuSubMultiQuick = []int{0, 2, 5, 10, 12, 13, 14}            // absent, A, AB, AC, XC, ABC, éB
+var tuSubMultiThorough = []int{0, 2, 5, 10, 11, 12, 13, 14, 16} // + XB, éC
+
+// the windows on which the quick tier uses the enlarged alphabet: one run of
+// five consecutive codes, the last-byte boundary (runs of 3 + 2) and the
+// window with both code lengths (runs of 2 + 3)
+var tuEnlargedQuick = map[string]bool{
+	"run 40..44":                    true,
+	"boundary 41FD..4201":           true,
+	"both lengths 7E,7F,8000..8002": true,
+}
+
+// textRelations classifies every ordered pair (s, t) of multi-rune values of
+// the alphabet by how the prefixes (all runes but the last) and the last runes
+// relate, and returns the classes that occur.  It is a statement about the
+// alphabet (reported in the evidence), not an oracle.
+func textRelations(alpha []string) map[string]int {
+	out := map[string]int{}
+	for _, s := range alpha {
+		for _, t := range alpha {
+			rs, rt := []rune(s), []rune(t)
+			if len(rs) < 2 || len(rt) < 2 {
+				continue
+			}
+			ps, pt := string(rs[:len(rs)-1]), string(rt[:len(rt)-1])
+			var pre string
+			switch {
+			case ps == pt:
+				pre = "prefix-equal"
+			case len(ps) == len(pt) && len(rs) == len(rt):
+				pre = "prefix-differs/same-bytes/same-runes"
+			case len(ps) == len(pt):
+				pre = "prefix-differs/same-bytes/other-runes"
+			case len(rs) == len(rt):
+				pre = "prefix-differs/other-bytes/same-runes"
+			default:
+				pre = "prefix-differs/other-bytes/other-runes"
+			}
+			ls, lt := rs[len(rs)-1], rt[len(rt)-1]
+			last := "last-other"
+			if lt == ls+1 {
+				last = "last+1"
+			} else if lt == ls {
+				last = "last-equal"
+			}
+			out[pre+","+last]++
+		}
+	}
+	return out
+}
 
 // parent maps (alphabet indices on the window), so that for every code the
 // child meets a parent that is absent / maps to the same / to another value
@@ -441,7 +507,7 @@ func Run(tier string) int {
 		budget = 22 * time.Minute
 	}
 	r := ev.New("C13", tier, "exploration", budget)
-	r.Rule("a case is (code space, window of codes, chain of maps child..grandparent, [file configuration]); every map on the window over the value alphabet is built with SetMapping / NewToUnicodeFile and judged in memory against the Go map; one execution = one in-memory judgement or one Embed->close->reopen->Extract round trip; distinct non-trivial = distinct (space, window, chain, map) with at least two mapped codes (the range compression has a decision to take) plus distinct hand-built files")
+	r.Rule("a case is (code space, window of codes, chain of maps child..grandparent, [file configuration]); every map on the window over the value alphabet (for code->text: the base alphabet, and on the windows and chain configurations listed under tounicode_enlarged_* the enlarged alphabet with the multi-rune family) is built with SetMapping / NewToUnicodeFile and judged in memory against the Go map; one execution = one in-memory judgement or one Embed->close->reopen->Extract round trip; distinct non-trivial = distinct (space, window, chain, map) with at least two mapped codes (the range compression has a decision to take) plus distinct hand-built files")
 	r.Assume("reference model: the Go map the CMap was built from; code space equivalence decided by ref.go on the partition induced by all range bounds",
 		"a child cannot unmap a code of its parent: the map of a chain is parent overlaid by child; CID 0 and 'not enumerated' are the same answer when a parent is present",
 		"hand-built files (rectangular ranges, overlaps, notdef entries, short value lists) are judged for lookup/enumeration agreement on codes covered by exactly one entry and for identical behaviour after the round trip; a reference value is demanded only for one-row ranges (consecutive CIDs; one-element bfrange value = last rune incremented)")
@@ -466,6 +532,18 @@ func Run(tier string) int {
 		}
 	}
 
+	// one case of the enlarged code->text family verbatim (the other samples
+	// are taken by whichever parts run first)
+	if sp := rn.spaces["1-byte <00>-<FF>"]; sp != nil {
+		if w := findWindow(sp.tuWin, "run 40..44"); w != nil {
+			c := Case{Kind: "tu", Space: sp.name, Window: w.name, Chain: [][]int{{5, 12, 13, 14, 15}}, Values: tuAlphaNames}
+			for _, x := range w.codes {
+				c.Codes = append(c.Codes, hx(x))
+			}
+			r.Sample(c)
+		}
+	}
+
 	parts := os.Getenv("VERIF_C13_PARTS") // debugging aid: "cid,tu,files"; a partial run is marked non-exhaustive
 	if parts != "" {
 		r.Capped("partial run: VERIF_C13_PARTS=" + parts)
@@ -485,7 +563,7 @@ func Run(tier string) int {
 
 	r.Dim("code_spaces", len(spaces))
 	r.Dim("cid_alphabet", cidAlphaNames)
-	r.Dim("tounicode_alphabet", tuAlphaNames)
+	r.Dim("tounicode_alphabet", tuAlphaNames[:tuBaseLen])
 	r.Dim("file_configurations_cid", len(allConfigs))
 	r.Dim("file_configurations_tounicode", len(tuConfigs))
 	r.Dim("versions", []string{"1.2", "1.7", "2.0"})
@@ -604,38 +682,89 @@ func (rn *runner) runTU() {
 	if r.Thorough() {
 		chains = append(chains, chainCfg{"parent B, grandparent", [][]int{tuParents[1], tuGrand}})
 	}
-	full := iota0(len(tuAlpha))
+	base := iota0(tuBaseLen)
+	enlargedAlpha := iota0(len(tuAlpha))
+	// where the enlarged alphabet (base + multi-rune family) is used:
+	// quick: three windows (a run of 5, runs of 3+2, runs of 2+3), no parent;
+	// thorough: every window, no parent and parent A.  Everywhere else the
+	// base alphabet.  A unit enumerates the complete product over its alphabet.
+	useEnlarged := func(w *window, ch chainCfg) bool {
+		if r.Thorough() {
+			return ch.name == "none" || ch.name == "parent A"
+		}
+		return ch.name == "none" && tuEnlargedQuick[w.name]
+	}
 	type unit struct {
-		sp  *space
-		w   *window
-		ch  chainCfg
-		top int
+		sp       *space
+		w        *window
+		ch       chainCfg
+		alpha    []int
+		enlarged bool
+		top      int // position in alpha of the value of the last code
 	}
 	var units []unit
 	nwin := 0
+	var enlWin []string
+	enlChains := map[string]bool{}
+	nEnl, nBase := 0, 0
 	for _, sp := range sortedSpaces(rn.spaces) {
 		for _, w := range sp.tuWin {
 			nwin++
 			for _, ch := range chains {
-				for top := range full {
-					units = append(units, unit{sp, w, ch, top})
+				alpha, enl := base, useEnlarged(w, ch)
+				if enl {
+					alpha = enlargedAlpha
+					nEnl++
+					enlChains[ch.name] = true
+					if len(enlWin) == 0 || enlWin[len(enlWin)-1] != sp.kind+": "+w.name {
+						enlWin = append(enlWin, sp.kind+": "+w.name)
+					}
+				} else {
+					nBase++
+				}
+				for top := range alpha {
+					units = append(units, unit{sp, w, ch, alpha, enl, top})
 				}
 			}
 		}
 	}
 	r.Dim("tounicode_windows", nwin)
 	r.Dim("tounicode_chain_configurations", len(chains))
-	r.Dim("tounicode_maps_per_window_and_chain", pow(len(full), 5))
-	embedAlpha := map[int]bool{}
-	for _, a := range ev.Pick(r, tuSub, full) {
-		embedAlpha[a] = true
+	r.Dim("tounicode_maps_per_window_and_chain", pow(len(base), 5))
+	r.Dim("tounicode_alphabet_enlarged", tuAlphaNames)
+	r.Dim("tounicode_enlarged_windows", enlWin)
+	r.Dim("tounicode_enlarged_chain_configurations", sortedKeys(enlChains))
+	r.Dim("tounicode_enlarged_maps_per_window_and_chain", pow(len(enlargedAlpha), 5))
+	r.Dim("tounicode_window_chain_products", fmt.Sprintf("%d over the enlarged alphabet, %d over the base alphabet", nEnl, nBase))
+	rel := textRelations(tuAlpha)
+	r.Dim("tounicode_adjacent_multi_rune_text_relations", rel)
+	if len(rel) != 15 {
+		r.Infra(fmt.Sprintf("the enlarged ToUnicode alphabet realises %d of the 15 prefix x last-rune relations", len(rel)))
+		return
 	}
-	r.Dim("tounicode_alphabet_embedded", len(embedAlpha))
-	// with a parent only the sub-alphabet goes through a file in either tier:
-	// NewToUnicodeFile does not look at the parent, the child is the same file
-	subAlpha := map[int]bool{}
-	for _, a := range tuSub {
-		subAlpha[a] = true
+
+	// which maps go through a file as a "form": complete products over
+	// sub-alphabets.  With a parent only the quick sub-alphabets in either
+	// tier: NewToUnicodeFile does not look at the parent, the child is the same
+	// file.
+	set := func(idx []int) map[int]bool {
+		m := map[int]bool{}
+		for _, a := range idx {
+			m[a] = true
+		}
+		return m
+	}
+	embedBase, embedBaseP := set(ev.Pick(r, tuSub, base)), set(tuSub)
+	embedMulti, embedMultiP := set(ev.Pick(r, tuSubMultiQuick, tuSubMultiThorough)), set(tuSubMultiQuick)
+	r.Dim("tounicode_alphabet_embedded", len(embedBase))
+	r.Dim("tounicode_enlarged_alphabet_embedded", len(embedMulti))
+	allIn := func(idx []int, m map[int]bool) bool {
+		for _, a := range idx {
+			if !m[a] {
+				return false
+			}
+		}
+		return true
 	}
 
 	r.Par(len(units), func(ui int) {
@@ -643,22 +772,21 @@ func (rn *runner) runTU() {
 		if r.Expired() || r.TooManyViolations() {
 			return
 		}
-		n := pow(len(full), 4)
+		n := pow(len(u.alpha), 4)
 		idx := make([]int, 5)
 		for t := 0; t < n; t++ {
 			if t&1023 == 0 && r.Expired() {
 				return
 			}
-			digits(t, full, idx[:4])
-			idx[4] = u.top
+			digits(t, u.alpha, idx[:4])
+			idx[4] = u.alpha[u.top]
 			child := append([]int{}, idx...)
 			chain := append([][]int{child}, u.ch.parents...)
-			inSub := true
-			for _, a := range child {
-				if !embedAlpha[a] || (len(u.ch.parents) > 0 && !subAlpha[a]) {
-					inSub = false
-					break
-				}
+			var inSub bool
+			if len(u.ch.parents) > 0 {
+				inSub = allIn(child, embedBaseP) || (u.enlarged && allIn(child, embedMultiP))
+			} else {
+				inSub = allIn(child, embedBase) || (u.enlarged && allIn(child, embedMulti))
 			}
 			pre := u.sp.kind + "/" + u.w.name + "/"
 			rn.tuCase(u.sp, u.w, chain, func(f *cmap.ToUnicodeFile) []config {
@@ -674,7 +802,7 @@ func (rn *runner) runTU() {
 			if present(child) >= 2 {
 				r.DistinctS(fmt.Sprintf("tu/%s/%s/%s/%v", u.sp.kind, u.w.name, u.ch.name, child))
 			}
-			if t == 4242 && u.top == 7 && r.WantSample() {
+			if t == 4242 && (u.top == 7 || (u.enlarged && u.top == 12)) && r.WantSample() {
 				c := Case{Kind: "tu", Space: u.sp.name, Window: u.w.name, Chain: chain, Values: tuAlphaNames}
 				for _, x := range u.w.codes {
 					c.Codes = append(c.Codes, hx(x))
